@@ -5,6 +5,11 @@ package main
 // Contracts for the verification machinery in /verif (comment-only file; compiled
 // only with -tags verif and adds no code).
 
+//@ spec tagOK(hint, static, private, protected) = (static ==> strings.Contains(hint, " [c/")) && (!static ==> strings.Contains(hint, " [i/"))
+//@     && (private && !protected ==> strings.HasSuffix(hint, "/private]"))
+//@     && (!private && protected ==> strings.HasSuffix(hint, "/protected]"))
+//@     && (!private && !protected ==> strings.HasSuffix(hint, "/public]"))
+
 //@ # ---- C18: a preloaded file is analysed silently ----
 //@ # Whatever evaluationLoop prints (hints, diagnostics, query answers) is printed only for the
 //@ # target file in the check round: every printing call sits behind `!isLoad && round == "check"`.
@@ -23,3 +28,5 @@ package main
 //@   sitesonly
 //@   witness site:call.0#0 "x = 1\n" preload "def from_preload(a)\n  a\nend\nfrom_preload(1)\n" args "-i" expect "(Integer) -> Integer"
 //@   callsite[C18,C22] MakeSignatureContent article.P.FileName == p.FileName
+//@   # C22: the tag of a hint says whether the method is a class method and which visibility was in effect
+//@   callsite[C22] append tagOK(a_1[0], ctx.IsDefineStatic, ctx.IsPrivate, ctx.IsProtected)
